@@ -11,7 +11,7 @@ PROPS["C05"] = dict(
                "Linux AF_* values for DLT_NULL. Only protocol-legal option/extension sizes are generated (<= 40 option bytes, AH ICV multiple of 4, quoted datagram <= 548 bytes for ICMPv4 errors). "
                "Tags are demanded only where libtins has a tag for the payload class; checksums only where the statement lists them; 802.3 frames are not required to be padded.",
     phases=[dict(name="sweep", harness="c05.cpp", flavor="asan", mode="sweep", cases=dict(quick=1952 + 9606 * 2, thorough=1952 + 9606 * 8)),
-            dict(name="random", harness="c05.cpp", flavor="asan", mode="random", cases=dict(quick=100000, thorough=1500000))],
+            dict(name="random", harness="c05.cpp", flavor="asan", mode="random", cases=dict(quick=100000, thorough=1200000))],
     rule="sweep: case = (stack in {IPv4,IPv6}x{TCP,UDP,ICMP echo}, payload length 0..1600, variant: 0 plain over Ethernet, >0 random options/extension headers/VLAN/raw-IP link) plus Ethernet-padding shapes x payload 0..60; "
          "random: case = layer spec drawn from the stack grammar + 2..5 history steps (payload/address/option changes, L4 replacement, VLAN insertion, clone, zero-sum steering, re-parse); "
          "distinct = distinct (link type, layer kinds, option kinds and sizes, payload size); non-trivial = every case serializes at least once and every derived field of every layer is compared",
